@@ -158,9 +158,10 @@ void c13_reader_step(void)
 		VF_ASSERT(t == &RD[self].task_map[RD[self].index], "returned task is the one of the new index");
 		if (nwait == 0) {
 			VF_ASSERT(RD[self].index == (w0 + 1) % IO.io_max, "slots are taken strictly in ring order");
-			/* the caller sleeps on read_done exactly when the worker it needs is still on reader_index */
-			if (w0 == r_at_ret) VF_ASSERT(sig_read_done == 1, "leaving the slot the caller waits for wakes the caller (no lost wake-up)");
 		}
+		/* the caller sleeps on read_done exactly when the worker it needs is still on reader_index: whatever happened while this
+		 * worker waited, leaving that slot must wake the caller (no lost wake-up) */
+		if (w0 == r_at_ret) VF_ASSERT(sig_read_done >= 1, "leaving the slot the caller waits for wakes the caller (no lost wake-up)");
 	} else {
 		VF_ASSERT(IO.done, "a reader stops only when told to");
 		VF_ASSERT(RD[self].index == w0 || nwait > 0, "no slot taken when stopping");
@@ -188,8 +189,8 @@ void c13_writer_step(void)
 		VF_ASSERT(t == &WR[self].task_map[WR[self].index], "returned task is the one of the new index");
 		if (nwait == 0) {
 			VF_ASSERT(WR[self].index == (w0 + 1) % IO.io_max, "slots are taken strictly in ring order");
-			if (w0 == (IO.writer_index + 1) % IO.io_max) VF_ASSERT(sig_write_done == 1, "leaving the slot the caller waits for wakes the caller");
 		}
+		if (w0 == (IO.writer_index + 1) % IO.io_max) VF_ASSERT(sig_write_done >= 1, "leaving the slot the caller waits for wakes the caller, also after having waited (no lost wake-up)");
 	} else {
 		VF_ASSERT(IO.done, "a writer stops only when told to");
 		VF_ASSERT((WR[self].index + 1) % IO.io_max == IO.writer_index, "a writer stops only after draining every scheduled write");
